@@ -125,6 +125,9 @@ class Accounting:
                                 self._unknown = canon(ev[1]).split('::')[-1]
                                 break
                 continue
+            if d == 'unknown':
+                self._unknown = canon(ev[1]).split('::')[-1]
+                continue
             if d == 'opaque':
                 # a writer whose byte count is unknown: a ghost quantity that only a len() measurement can capture
                 total = lin_add(total, ({('ghost', ev[3]): 1}, 0))
